@@ -55,7 +55,27 @@ def owsim_half(ctx):
             ctx.report({"kind": "owsim-" + m["kind"], "model": "ow-sim"}, "ow-sim (race build, perturbed schedule) %s: %s" % (m["option"], m["detail"][:1200]), m)
 
 
+def footprint_proof(ctx):
+    """TLAPS: cells that stay inside their footprints never conflict, for ANY number of cells, parameter sets, input
+    blocks and timesteps (RunFootprintProof.tla; the set-level footprints are tied to Program(i) by the TLC invariant
+    FootprintsAreSets of RunWrapper.tla)."""
+    import shutil, subprocess, tempfile, re
+    from ..common import SPEC
+    wd = tempfile.mkdtemp(prefix="tlaps-", dir=ctx.scratch)
+    shutil.copy(os.path.join(SPEC, "RunFootprintProof.tla"), wd)
+    try:
+        r = subprocess.run(["tlapm", "--threads", "8", "RunFootprintProof.tla"], cwd=wd, capture_output=True, text=True, timeout=900)
+    except (OSError, subprocess.TimeoutExpired) as e:
+        raise Infra("tlapm did not run: %s" % e)
+    out = r.stdout + r.stderr
+    m = re.search(r"All (\d+) obligations? proved", out)
+    if r.returncode != 0 or not m:
+        raise Infra("RunFootprintProof.tla is not proved (a defect of the proof, not of openwater-core):\n" + out[-2500:])
+    ctx.notes["tlaps_footprint_proof"] = "%s obligations proved: Spec => []NoRace for any NC, NP, NB, T" % m.group(1)
+
+
 def run(ctx):
+    footprint_proof(ctx)
     cases, r = runwrap.tlc_configs(ctx, "RunWrapper.cfg")
     # vacuity self-test: the bugged variant must violate NoRace
     rb = ctx.tlc("RunWrapper", cfg="RunWrapper_bug.cfg", timeout=600)
